@@ -114,6 +114,34 @@ mut('m09i-h2s-truncated-dst', ['C09'], 'src/key_exchange/group/ristretto255.rs',
 mut('m11z-zero-test-against-one', ['C11'], 'src/key_exchange/group/ristretto255.rs',
     '        scalar.ct_eq(&Scalar::ZERO)\n', '        scalar.ct_eq(&Scalar::ONE)\n')
 
+# ---- C19 (structural clauses of the group laws)
+mut('m19a-x25519-unclamped-base-mult', ['C19'], 'src/key_exchange/group/curve25519.rs',
+    '''        MontgomeryPoint::mul_base_clamped(sk)''', '''        MontgomeryPoint::mul_base(&Scalar::from_bytes_mod_order(sk))''')
+mut('m19b-nist-dh-doubles-scalar', ['C19'], 'src/key_exchange/group/elliptic_curve.rs',
+    '''        Self::serialize_pk(pk * sk)''', '''        Self::serialize_pk(pk * (sk + sk))''')
+mut('m19c-random-pair-mismatch', ['C19'], 'src/keypair.rs',
+    '''        let pk = KG::public_key(sk);
+        Self {''', '''        let pk = KG::public_key(KG::random_sk(rng));
+        Self {''')
+mut('m19d-derive-counter-from-one', ['C19', 'C09'], 'src/key_exchange/group/mod.rs',
+    '''        for counter in 0_u8..=u8::MAX {''', '''        for counter in 1_u8..=u8::MAX {''')
+mut('m19e-ristretto-sk-reversed', ['C19'], 'src/key_exchange/group/ristretto255.rs',
+    '''    fn serialize_sk(sk: Self::Sk) -> GenericArray<u8, Self::SkLen> {
+        sk.to_bytes().into()''', '''    fn serialize_sk(sk: Self::Sk) -> GenericArray<u8, Self::SkLen> {
+        let mut b = sk.to_bytes();
+        b.reverse();
+        b.into()''')
+mut('m19f-wrapper-dh-uses-public-of-self', ['C19'], 'src/keypair.rs',
+    '''        Ok(KG::diffie_hellman(pk.0, self.0))''', '''        Ok(KG::diffie_hellman(KG::public_key(self.0), self.0)).map(|x| { let _ = &pk; x })''')
+mut('m19g-from-private-key-slice-rederives', ['C19'], 'src/keypair.rs',
+    '''        Self::from_private_key(S::deserialize(input)?)''', '''        let kp = Self::from_private_key(S::deserialize(input)?)?;
+        let twice = Self::from_private_key(S::deserialize(&kp.pk.serialize()[..<S::Len as generic_array::typenum::Unsigned>::USIZE.min(<KG::PkLen as generic_array::typenum::Unsigned>::USIZE)]).unwrap_or_else(|_| kp.sk.clone()))?;
+        Ok(Self { pk: twice.pk, sk: kp.sk })''')
+mut('m19h-ristretto-pk-generator-doubled', ['C19'], 'src/key_exchange/group/ristretto255.rs',
+    '''    fn public_key(sk: Self::Sk) -> Self::Pk {
+        RISTRETTO_BASEPOINT_POINT * sk''', '''    fn public_key(sk: Self::Sk) -> Self::Pk {
+        (RISTRETTO_BASEPOINT_POINT + RISTRETTO_BASEPOINT_POINT) * sk''')
+
 def run(cmd, **kw):
     return subprocess.run(cmd, shell=True, capture_output=True, text=True, **kw)
 
